@@ -131,6 +131,26 @@ func pickKind(r *common.Rand, fk loaderlab.FKind) loaderlab.FaultKind {
 	}
 }
 
+var crumbPath string
+
+func crumb(seed uint64, idx int, mode string, fs faultSet) {
+	if crumbPath == "" {
+		return
+	}
+	ids := make([]int, 0, len(fs))
+	for id := range fs {
+		ids = append(ids, id)
+	}
+	sort.Ints(ids)
+	parts := make([]string, 0, len(ids))
+	for _, id := range ids {
+		parts = append(parts, strconv.Itoa(id)+":"+fs[id].String())
+	}
+	_ = os.WriteFile(crumbPath, []byte(fmt.Sprintf("%d\t%d\t%s\t%s\n", seed, idx, mode, strings.Join(parts, ","))), 0o644)
+}
+
+var curMode = "mixed"
+
 func planLine(lab *loaderlab.Lab, p *loaderlab.Plan, r *common.Rand, sets []faultSet, seed uint64, idx int, o planOpts) (string, int) {
 	answers := map[string]loaderlab.Answer{}
 	var order []string
@@ -144,10 +164,12 @@ func planLine(lab *loaderlab.Lab, p *loaderlab.Plan, r *common.Rand, sets []faul
 		}
 	}
 	runs := []string{"runs"}
+	crumb(seed, idx, curMode, faultSet{})
 	base := p.Run(lab, loaderlab.RunConfig{})
 	note(base)
 	runs = append(runs, runSexp(p, faultSet{}, base))
 	for _, fs := range sets {
+		crumb(seed, idx, curMode, fs)
 		res := p.Run(lab, loaderlab.RunConfig{Faults: fs})
 		note(res)
 		runs = append(runs, runSexp(p, fs, res))
@@ -305,6 +327,10 @@ func main() {
 	if mode == "" {
 		mode = "mixed"
 	}
+	curMode = mode
+	if a["out"] != "" && a["out"] != "-" {
+		crumbPath = a["out"] + ".current"
+	}
 	switch os.Args[1] {
 	case "gen":
 		out := common.NewOut(a["out"])
@@ -314,6 +340,7 @@ func main() {
 		total := 0
 		for idx := 0; idx < n; idx++ {
 			p, r, o := makePlan(seed, idx, mode)
+			crumb(seed, idx, mode, faultSet{})
 			req := requestedFetches(p, lab)
 			line, k := planLine(lab, p, r, faultSets(p, r, req, tier), seed, idx, o)
 			out.Line(line)
@@ -342,6 +369,7 @@ func main() {
 			s, _ := strconv.ParseUint(parts[0], 10, 64)
 			idx, _ := strconv.Atoi(parts[1])
 			p, r, o := makePlan(s, idx, parts[2])
+			curMode = parts[2]
 			cl, _ := planLine(lab, p, r, []faultSet{parseFaults(parts[3])}, s, idx, o)
 			out.Line(cl)
 		}
